@@ -118,6 +118,11 @@ def main(tier, seed, args):
     cfg, pc = flow_cfg(1, 'free_absent', pay_outcomes=('complete',), faults=1, fault_methods=('datastore', 'listdatastore'),
                        fault_codes=((-1, 'Rpc'),))
     configs.append(('no await under the table lock[1 funded htlc, 1 datastore fault]', cfg, pc, [LockDiscipline(), Coverage(['fault'])], {}))
+    from .c06 import cfg_concrete
+    cfg, pc = cfg_concrete([1006000, 1000, 1000])
+    for sp in cfg['htlcs'][1:]:
+        sp.cltv_rel = 10                      # two late parts that trip the expiry check while the payment is in flight
+    configs.append(('no await under the table lock[2 failing htlcs while paying]', cfg, pc, [LockDiscipline(), Coverage(['pay'])], {}))
     scen_common.run_configs(rep, PID, c, configs, budget)
     finish(rep, [c], './check C11 --tier ' + tier)
 
